@@ -482,11 +482,22 @@ class Scenario:
             for i in order:
                 A.overlay.walk_to(UDPv4Address(*walkable[i]))
         collect_walks()
+        lose = bool(self.case.get("lose_first")) and rno == 0 and self.case.get("walker") and not self.fillers \
+            and X.name not in connected_before
+        if lose:
+            # every contact attempt of this round is lost on the way (one unlucky moment); judged is what follows
+            for fl in list(net.inflight):
+                if fl in walks:
+                    net.drop(fl)
         for _ in range(2000):
             if not step(False):
                 break
         else:
             raise HarnessError("schedule does not terminate")
+        if lose:
+            return {"what": "lost_on_purpose", "nontrivial": True, "X_node": X, "lost": True,
+                    "desc": f"A[{self.kind(A)}] -> {X.name}[{self.kind(X)}], {self.case['style']}-style",
+                    "clause": "N3" if self.same_box(A, X) else "N2"}
 
         # ---- N2 / N3 ----------------------------------------------------------------------------------------
         same = self.same_box(A, X)
@@ -544,6 +555,22 @@ class Scenario:
         X, A = summary.pop("X_node", None), self.A
         if X is None or not self.case.get("walker") or self.rw is None:
             return
+        if summary.pop("lost", False):
+            # A's attempts were lost. Its walker gives up on the silent addresses (3 s), asks again, is introduced to the
+            # only candidate again and contacts it: within 15 virtual seconds both are each other's verified peers
+            for _ in range(30):
+                await asyncio.sleep(0.5)
+                self.rw.take_step()
+                self.drain_fifo()
+                if self.is_peer(A, X) and self.is_peer(X, A):
+                    break
+            self.hist.append("aftermath:lost_then_retried")
+            if not (self.is_peer(A, X) and self.is_peer(X, A)):
+                self.fail(summary["clause"], "reintroduction",
+                          f"{summary['desc']}: the first contact attempts were lost; 15 s of walking later (the introducer "
+                          f"has only this candidate) A walkable={sorted(tuple(a) for a in A.overlay.get_walkable_addresses())}, "
+                          f"{X.name} in A.get_peers(): {self.is_peer(A, X)}, A in {X.name}.get_peers(): {self.is_peer(X, A)}")
+            return
         if self.case["walker"] > 1:
             X.overlay.send_introduction_request(self.peer_at(X, A))
             self.drain_fifo()
@@ -575,7 +602,7 @@ def execute(ctx: Ctx | None, case: dict) -> list[dict]:
             for r in range(case["rounds"]):
                 out.append(sc.round(r))
                 await sc.aftermath(out[-1])
-                for k in ("X_node", "desc", "clause"):
+                for k in ("X_node", "desc", "clause", "lost"):
                     out[-1].pop(k, None)
         finally:
             hist.extend(sc.hist)
@@ -624,7 +651,7 @@ def base_case(cfg: dict, idx: int) -> dict:
             "b_new": cfg["b_new"], "fillers": [["pub", 0]] * (cfg["k"] - 1), "rseed": idx, "rounds": 1,
             "picks": [], "early": 0, "order": 0, "alike": (idx // 5) % 2, "disc": (idx // 10) % 2,
             "pool": (idx // 20) % 2, "walker": (idx // 2) % 3,
-            "dual": (idx // 3) % 3}
+            "dual": (idx // 3) % 3, "lose_first": (idx // 4) % 2}
 
 
 def _strategy(cfg: dict):
@@ -645,6 +672,7 @@ def _strategy(cfg: dict):
         "pool": st.sampled_from([0, 0, 1]),
         "walker": st.sampled_from([0, 0, 1, 2, 2]),
         "dual": st.sampled_from([0, 0, 1, 1, 2]),
+        "lose_first": st.sampled_from([0, 0, 1]),
     })
 
 
